@@ -39,6 +39,7 @@ type Task struct {
 	// Sleep bookkeeping
 	timerSeq uint64
 	quiesce  bool
+	frozen   bool
 }
 
 // Failure is the first simulator-detected problem of a run.
@@ -670,6 +671,18 @@ func (s *Sim) pickAfterBlock() *Task {
 			continue
 		}
 		// deadlock: blocked tasks, nothing runnable, no timers
+		live := false
+		for _, t := range s.tasks {
+			if t.state == tsBlocked && !t.frozen {
+				live = true
+			}
+		}
+		if !live {
+			// only frozen ("process-stopped") tasks remain: nothing more can happen
+			s.setFail("oracle-stop", "all remaining tasks are frozen")
+			s.endRun()
+			return nil
+		}
 		s.setFail("deadlock", s.describeBlocked())
 		s.endRun()
 		return nil
@@ -680,7 +693,7 @@ func (s *Sim) pickAfterBlock() *Task {
 func (s *Sim) describeBlocked() string {
 	msg := "no runnable task and no pending timer; blocked:"
 	for _, t := range s.tasks {
-		if t.state == tsBlocked {
+		if t.state == tsBlocked && !t.frozen {
 			msg += " [" + t.Name + " waits on " + t.waitStr
 			if h, ok := t.waitObj.(interface{ holder() string }); ok {
 				msg += " held by " + h.holder()
@@ -850,6 +863,23 @@ func Settle(maxNs int64) bool {
 			s.now = at
 		}
 		s.fireTimers()
+	}
+}
+
+// Freeze stops the calling task for good without running any of its deferred code: the
+// simulation of "the process stopped here" for the code the task was executing. A frozen
+// task never counts as deadlocked; it is torn down with the run.
+//
+//go:norace
+func Freeze() {
+	s := S
+	if s == nil || s.over {
+		return
+	}
+	me := s.cur
+	me.frozen = true
+	for {
+		s.block("process-stopped", nil)
 	}
 }
 
